@@ -597,7 +597,7 @@ impl<R: Read, TSpec> TagIterator<R, TSpec>
             internal_buffer_position: self.internal_buffer_position,
             buffered_byte_length: self.buffered_byte_length,
             capacity: self.buffer.len(),
-            stack: self.tag_stack.iter().map(|t| (t.tag.get_id(), match t.size { Known(s) => Some(s), Unknown => None }, t.tag_start, t.data_start)).collect(),
+            stack: self.tag_stack.iter().map(|t| (t.tag.get_id(), match t.size { Known(s) => Some(s), _ => None }, t.tag_start, t.data_start)).collect(),
             queue_len: self.emission_queue.len(),
             has_determined_doc_path: self.has_determined_doc_path,
         }
